@@ -125,8 +125,10 @@ def chk_case(inp, c):
     w = np.ones(m) if inp["W"] is None else inp["W"]
     c.cell(*gen.sys_cells(inp), "opt=" + opt, f"surplus={n - m}", "W=" + inp["wkind"],
            "solver=tight" if inp["tight"] else "solver=default")
-    est = c.call(gen.make_estimator, dreye, inp, w=(1.0 if inp["W"] is None else inp["W"]),
-                 _where="ReceptorEstimator+register_system")
+    est = inp.get("_live_estimator")
+    if est is None:
+        est = c.call(gen.make_estimator, dreye, inp, w=(1.0 if inp["W"] is None else inp["W"]),
+                     _where="ReceptorEstimator+register_system")
     arg = {"l2": "l2", "none": None, "min": "min", "max": "max", "var": "var"}.get(opt, val)
     kw = dict(solver=cp.CLARABEL, tol_gap_abs=1e-10, tol_gap_rel=1e-10, tol_feas=1e-10) if inp["tight"] else {}
     out = c.call(est.fit_underdetermined, B.copy(), underdetermined_opt=arg, l2_eps=eps,
@@ -184,4 +186,21 @@ def chk_case(inp, c):
     c.note("first_row", {"x": X[0], "opt": opt, "value": val, "l2_eps": eps})
 
 
-M.add("secondary_goal", gen_case, chk_case, weight=1, min_held=150)
+M.add("secondary_goal", gen_case, chk_case, weight=6, min_held=150)
+
+
+def gen_rereg(rng, i):
+    s = gen_case(rng, i)
+    s["rereg_seed"] = int(rng.integers(0, 2 ** 31 - 1))
+    s["wkind"], s["W"] = "none", None
+    return s
+
+
+def chk_rereg(inp, c):
+    """The fit uses the CURRENTLY registered system: fit, change one registration on the same estimator, fit again."""
+    arg = {"l2": "l2", "none": None, "min": "min", "max": "max", "var": "var"}.get(inp["opt"], inp["val"])
+    gen.rereg_check(c, dreye, inp, lambda est: est.fit_underdetermined(inp["B"], underdetermined_opt=arg, l2_eps=inp["l2_eps"]),
+                    chk_case)
+
+
+M.add("secondary_goal_after_reregistration", gen_rereg, chk_rereg, weight=1, min_held=20)
